@@ -379,6 +379,15 @@ def _setup(scn: dict, root: str) -> None:
 
 
 def _run(scn: dict, mode: str, ks: tuple = (), err: str | None = None, when: str | None = None) -> dict:
+    """one forked run; a child that produced no report (killed by its wall-clock alarm on a saturated machine) is
+    retried once with a five-times longer alarm before the harness error is reported"""
+    res = _run_once(scn, mode, ks, err, when, 60)
+    if res.get("harness_error") and "no report" in str(res["harness_error"]):
+        res = _run_once(scn, mode, ks, err, when, 300)
+    return res
+
+
+def _run_once(scn: dict, mode: str, ks: tuple, err: str | None, when: str | None, alarm_s: int) -> dict:
     root = os.path.realpath(tempfile.mkdtemp(prefix="vf-fs-"))
     try:
         _setup(scn, root)
@@ -391,7 +400,7 @@ def _run(scn: dict, mode: str, ks: tuple = (), err: str | None = None, when: str
             code = 70
             try:
                 os.close(rfd)
-                signal.alarm(60)  # a hung child dies by SIGALRM and is reported as a harness error
+                signal.alarm(alarm_s)  # a hung child dies by SIGALRM and is reported as a harness error
                 _child(scn, root, _Ctl(root, mode, ks, err, when), wfd)
                 code = 0
             finally:
